@@ -95,7 +95,7 @@ RBTB = ("Trusted: Coq kernel; hand models Model/Rebuild.v, Model/CopyPath.v, Mod
         "execution; the reference verifier/encoder (harness/ref/oracle.py); OS file operations on regular files; no symbolic links; no concurrent writer.")
 CLAIMED.update({
     "C02": (
-        "Coq proof (merkle tree lemmas; the three v2 hashers' models equal an independent BEP 52 specification) + extracted-model correspondence + oracle search",
+        "Coq proof (merkle tree lemmas; the three v2 hashers' models equal an independent BEP 52 specification; the size decisions of the three _traverse methods REGENERATED from torrent.py equal the model's for every size) + extracted-model correspondence + oracle search",
         "Machine-checked proof, for every SHA-256 function, every block size B > 0, every piece length B*2^k and every file content of any length, that "
         "the models of HasherV2, HasherHybrid and FileHasher (one Gallina function per method of hasher.py) return exactly the BEP 52 merkle root "
         "(leaf hashes of the B-byte blocks, zero-hash padding to the next power of two, balanced tree) and exactly the piece layer restricted to the "
